@@ -184,6 +184,7 @@ def analyse(F, b, params):
     inserts = calls_in(b, lambda t: on_vis(t, 'insert'))
     K.n_contains, K.n_insert = len(conts), len(inserts)
     K.notvis = None
+    K.insert_is_test = False
     K.contains_key = K.insert_key = None
     if len(inserts) != 1:
         K.missing.append('INSERT(%d)' % len(inserts))
@@ -208,6 +209,7 @@ def analyse(F, b, params):
             K.sites['CONTAINS'] = ibi
             K.contains_key = K.insert_key
             K.notes.append('visited test by insert() result')
+            K.insert_is_test = True
         else:
             K.missing.append('CONTAINS(0)')
     else:
